@@ -231,7 +231,7 @@ def step (ms : MState) (op : String) (args impl : List String) : MState × Pred 
   | _, _ =>
   if !ms.isOpen then fail "op on a closed file" else
   if ms.ro && !(["getlinkh", "get", "has", "count", "list", "valid", "drop", "idof", "dump", "dumpx", "xcheck", "xlinks", "countlink", "listlink",
-                 "haslink", "getlink", "dims", "gdim", "pget", "da_read1", "getf", "find", "validate", "hdump", "xfeat"].contains op) then
+                 "haslink", "getlink", "dims", "gdim", "pget", "da_read1", "getf", "find", "validate", "hdump", "xfeat", "haslinkh"].contains op) then
     -- a mutator in a read-only session: whatever it answers (an exception, or `false` for "there was nothing to remove"), the file
     -- stays as it is — the next dump is compared with the unchanged store
     (ms, .skip) else
@@ -588,7 +588,7 @@ def step (ms : MState) (op : String) (args impl : List String) : MState × Pred 
       | none => fail "xlinks")
     | _ => fail "xlinks through an uninitialised holder"
   | "dump", _ | "dumpx", _ => (ms, .skip)      -- compared by the caller
-  | "hdump", _ | "xfeat", _ => (ms, .skip)     -- judged by the impl-side rules (what handles show / features by their data array)
+  | "hdump", _ | "xfeat", _ | "haslinkh", _ => (ms, .skip)     -- judged by the impl-side rules (what handles show / features by their data array)
   | _, _ => fail s!"op {op}"
 
 end Nix.Drive.StoreModel
